@@ -396,7 +396,7 @@ Definition rel_step_t (p : bparams) (s : rst) (f : Z * wval) : result rst :=
 Fixpoint members_loop_t (ar am at' : acc) (st : list bytes) (roles memids types : list Z) (memid : Z) (index : nat)
   (ms : list member) : result (list member) :=
   match roles with
-  | [] => full ms index
+  | [] => match memids with [] => full ms index | _ :: _ => Err E_COLUMNS end
   | r :: rr =>
       _ <- upd ms index (fun m => m) ;;;
       role <- idx st (ev_z ar r) ;;;
